@@ -242,3 +242,4 @@ Proof.
   destruct c as [[[a b] c0] d]. unfold q4_in32, in32, H32 in H. unfold norm1.
   change (2 ^ Z.of_nat 34) with 17179869184. lia.
 Qed.
+
